@@ -66,6 +66,13 @@ func (w *binaryWriter) WriteNull() error {
 
 // WriteNullType writes a typed null.
 func (w *binaryWriter) WriteNullType(t Type) error {
+	if w.err != nil {
+		return w.err
+	}
+	if int(t) >= len(binaryNulls) {
+		w.err = &UsageError{"Writer.WriteNullType", fmt.Sprintf("not an Ion type: %v", uint8(t))}
+		return w.err
+	}
 	return w.writeValue("Writer.WriteNullType", []byte{binaryNulls[t]})
 }
 
